@@ -86,16 +86,16 @@ func (o *vfOffer) HasVersion(v uint16) bool { return vfContains16(o.Versions, v)
 var vfTLS13Suites = []uint16{TLS_AES_128_GCM_SHA256, TLS_AES_256_GCM_SHA384, TLS_CHACHA20_POLY1305_SHA256}
 
 type vfSuiteInfo struct {
-	ID      uint16
-	TLS12   bool   // only valid for TLS 1.2
-	Kx      string // "ecdhe" or "rsa"
-	Auth    string // "rsa" or "ecdsa"
-	IsAEAD  bool
-	Name    string
-	IsCBC   bool
-	IsRC4   bool
-	Is3DES  bool
-	IsSHA2  bool
+	ID     uint16
+	TLS12  bool   // only valid for TLS 1.2
+	Kx     string // "ecdhe" or "rsa"
+	Auth   string // "rsa" or "ecdsa"
+	IsAEAD bool
+	Name   string
+	IsCBC  bool
+	IsRC4  bool
+	Is3DES bool
+	IsSHA2 bool
 }
 
 // independent table of the TLS <= 1.2 suites that crypto/tls (and hence utls and its server) implements
@@ -465,4 +465,199 @@ func vfCertNames(sni string) []string {
 		return []string{"example.test"}
 	}
 	return []string{strings.TrimSuffix(sni, ".")}
+}
+
+// ---- grid runner ----
+
+// server-side errors that mean "the server rejects the offer" (negotiation failure, allowed by the property);
+// anything else on the server side (bad record MAC, decrypt error, bad Finished...) is a cryptographic or
+// protocol disagreement and is not excused.
+var vfGridServerRejections = []string{
+	"no cipher suite supported by both client and server",
+	"client offered only unsupported versions",
+	"client requested unsupported application protocols",
+	"no ECDHE curve supported by both client and server",
+	"client doesn't support any of the certificate's signature algorithms",
+	"client doesn't support certificate curve",
+	"no supported signature algorithm",
+	"peer doesn't support any of the certificate's signature algorithms",
+}
+
+func vfGridIsServerRejection(serr error) bool {
+	if serr == nil {
+		return false
+	}
+	for _, m := range vfGridServerRejections {
+		if strings.Contains(serr.Error(), m) {
+			return true
+		}
+	}
+	return false
+}
+
+type vfGridResult struct {
+	Prepared *vfPrepared
+	Choice   vfSrvChoice
+	Pair     *vfPair
+	SCfg     *Config
+	SNI      string
+	OK       bool
+}
+
+type vfGridOpts struct {
+	Src      *vfClientSrc            // nil = draw
+	SNI      *string                 // nil = draw
+	CCfgMod  func(*Config)           // edits the client config before UClient
+	Prep     func(*vfPrepared) error // runs on the prepared client before the server choice (after the first build)
+	Choice   *vfSrvChoice            // nil = draw from the offer
+	SCfg     *Config                 // nil = build from the choice
+	KeepOpen bool                    // do not close the pair on return
+	// OnlySuccess: the property of the caller speaks about successful handshakes only; a failed handshake is
+	// counted (class) and the case dropped instead of being judged (judging it is C10's business)
+	OnlySuccess bool
+	Label    string
+}
+
+// vfGridRun executes one grid case. It returns the finished pair when both handshakes succeeded and the
+// application-data echo worked (nil when the case was excluded); violations are reported through st under prop.
+func vfGridRun(rt *rapid.T, st *vfStats, prop string, o vfGridOpts) *vfGridResult {
+	var src vfClientSrc
+	if o.Src != nil {
+		src = *o.Src
+	} else {
+		src = vfGenClientSrc(rt, o.Label+"src")
+	}
+	var sni string
+	if o.SNI != nil {
+		sni = *o.SNI
+	} else {
+		sni = vfGenDNSName(rt, o.Label+"sni")
+	}
+	rseed := rapid.Uint64().Draw(rt, o.Label+"randseed")
+	st.Eval()
+	p, err := vfPrepareClient(src, sni, rseed, o.CCfgMod)
+	if err != nil {
+		st.Violation(rt, "%s: client could not build its ClientHello: %v", src, err)
+	}
+	if o.Prep != nil {
+		if err := o.Prep(p); err != nil {
+			st.Violation(rt, "%s: preparing the client failed: %v", src, err)
+		}
+	}
+	if len(p.Offer.Hello.Violations) > 0 {
+		st.Class("malformed-hello(C02's business)")
+	}
+	var choice vfSrvChoice
+	if o.Choice != nil {
+		choice = *o.Choice
+	} else {
+		var ok bool
+		choice, ok = vfGenSrvChoice(rt, p.Offer, o.Label+"srv")
+		if !ok {
+			st.Class("no-implemented-choice")
+			return nil
+		}
+	}
+	scfg := o.SCfg
+	if scfg == nil {
+		scfg = vfServerConfigFor(choice, vfCertNames(sni)...)
+	}
+	pair := &vfPair{CP: p.CP, SP: p.SP, Cli: p.UC, Srv: Server(p.SP, scfg)}
+	if !o.KeepOpen {
+		defer pair.Close()
+	}
+	cerr, serr := pair.Handshake()
+	desc := fmt.Sprintf("%s sni=%s | %s", src, sni, choice)
+	res := &vfGridResult{Prepared: p, Choice: choice, Pair: pair, SCfg: scfg, SNI: sni}
+
+	// which group did the server actually select?
+	var selGroup uint16
+	shs := vfServerHellosOnWire(pair.SP.Written())
+	if len(shs) > 0 {
+		selGroup = shs[len(shs)-1].KeyShareGroup()
+	}
+	st.Class(fmt.Sprintf("ver=%04x", choice.Ver))
+	st.Class("kind=" + src.Kind)
+	if choice.HRR {
+		st.Class("hrr")
+	}
+
+	if (cerr != nil || serr != nil) && o.OnlySuccess && cerr != errVfHang && serr != errVfHang {
+		st.Class("handshake-failed(judged under C10)")
+		return nil
+	}
+	if cerr != nil || serr != nil {
+		if cerr == errVfHang || serr == errVfHang {
+			st.Violation(rt, "%s: handshake hung (cerr=%v serr=%v)", desc, cerr, serr)
+		}
+		if vfGridIsServerRejection(serr) && (cerr == nil || vfIsRemoteAlert(cerr) || strings.Contains(cerr.Error(), "EOF") || strings.Contains(cerr.Error(), "closed")) {
+			st.Class("server-rejected-offer: " + serr.Error())
+			return nil
+		}
+		// known class: the server selected a classical share that is not the first classical share of the hello
+		if cerr != nil && strings.Contains(cerr.Error(), "invalid server key share") && selGroup != 0 && vfContains16(p.Offer.Shares, selGroup) {
+			first := uint16(0)
+			for _, g := range p.Offer.Shares {
+				if vfContains16(vfClassicalGroups, g) {
+					first = g
+					break
+				}
+			}
+			if first != 0 && selGroup != first && vfContains16(vfClassicalGroups, selGroup) {
+				st.KnownOrViolation(rt, prop+":server-selects-non-first-classical-share",
+					"%s: server selected group %#x for which the client sent a share, client aborts: %v", desc, selGroup, cerr)
+				return nil
+			}
+		}
+		// known class (documented TODO in processHelloRetryRequest): a utls-built hello carrying a real PSK cannot be
+		// re-marshalled after a HelloRetryRequest
+		if cerr != nil && strings.Contains(cerr.Error(), "uTLS does not support reprocessing of PSK key triggered by HelloRetryRequest") {
+			st.KnownOrViolation(rt, prop+":psk-resumption-hrr", "%s: resumption with a PSK answered by a HelloRetryRequest: %v", desc, cerr)
+			return nil
+		}
+		// known class: the hello lists a hybrid group in supported_groups without sending a share for it (C09's
+		// defect in randomized specs); a server preferring that group answers with a HelloRetryRequest for it, which
+		// neither crypto/tls nor utls can follow
+		if cerr != nil && strings.Contains(cerr.Error(), "CurvePreferences includes unsupported curve") && len(shs) > 0 && shs[0].IsHRR &&
+			shs[0].KeyShareGroup() == vfGroupX25519MLKEM768 && !vfContains16(p.Offer.Shares, vfGroupX25519MLKEM768) {
+			st.KnownOrViolation(rt, prop+":hybrid-group-listed-without-share",
+				"%s: supported_groups lists X25519MLKEM768 without a key share; server HRR for it makes the client abort: %v", desc, cerr)
+			return nil
+		}
+		st.Violation(rt, "%s: handshake failed although every server choice was offered on the wire and is implemented: client err=%v, server err=%v", desc, cerr, serr)
+	}
+	// both completed: parameters must be the chosen ones and data must flow both ways
+	cs, ss := pair.Cli.ConnectionState(), pair.Srv.ConnectionState()
+	if cs.Version != choice.Ver || ss.Version != choice.Ver {
+		st.Violation(rt, "%s: negotiated version client=%04x server=%04x", desc, cs.Version, ss.Version)
+	}
+	if choice.Suite != 0 && (cs.CipherSuite != choice.Suite || ss.CipherSuite != choice.Suite) {
+		st.Violation(rt, "%s: negotiated suite client=%04x server=%04x", desc, cs.CipherSuite, ss.CipherSuite)
+	}
+	if !vfContains16(p.Offer.Suites, cs.CipherSuite) {
+		st.Violation(rt, "%s: negotiated suite %04x was not offered", desc, cs.CipherSuite)
+	}
+	if cs.NegotiatedProtocol != choice.ALPN || ss.NegotiatedProtocol != choice.ALPN {
+		st.Violation(rt, "%s: ALPN client=%q server=%q", desc, cs.NegotiatedProtocol, ss.NegotiatedProtocol)
+	}
+	if choice.Ver == VersionTLS13 && choice.Group != 0 && selGroup != choice.Group {
+		st.Violation(rt, "%s: server selected group %#x", desc, selGroup)
+	}
+	c2s := rapid.SliceOfN(rapid.Byte(), 1, 300).Draw(rt, o.Label+"c2s")
+	s2c := rapid.SliceOfN(rapid.Byte(), 1, 300).Draw(rt, o.Label+"s2c")
+	if err := pair.Echo(c2s, s2c); err != nil {
+		st.Violation(rt, "%s: application data round trip failed: %v", desc, err)
+	}
+	if err := pair.Echo(s2c, c2s); err != nil {
+		st.Violation(rt, "%s: second application data round trip failed: %v", desc, err)
+	}
+	res.OK = true
+	// non-trivial: the server's choice differs from what a default tls.Server would pick
+	nt := choice.HRR || choice.Ver != p.Offer.Versions[0] || choice.Suite != 0 || choice.CertKey != "rsa" ||
+		(choice.Group != 0 && len(p.Offer.Shares) > 0 && choice.Group != p.Offer.Shares[0])
+	if nt {
+		st.NonTrivial(fmt.Sprintf("%s|%04x|%04x|%04x|%v|%s|%v", src.Kind+":"+src.Name, choice.Ver, cs.CipherSuite, selGroup, choice.HRR, choice.CertKey, choice.ALPN != ""))
+	}
+	st.Sample(map[string]any{"client": src.String(), "sni": sni, "server": choice.String(), "suite": fmt.Sprintf("%04x", cs.CipherSuite), "group": fmt.Sprintf("%04x", selGroup)})
+	return res
 }
